@@ -12,6 +12,12 @@ copy (`BInv.p1`); the worker that starts on the scan path has just been let in b
 its scope numbered less than the threshold (`room_of_not_occupied`).  Once somebody of the scope has finished, the
 scan path is closed for the whole scope (`finished` marks are never taken back) and (b) alone adds results.
 
+Object roots (classes whose copies are created in two phases) are covered when `max_tries ≤ 1`: the creation pre-step
+keeps its placeholder on a copy of the results private to the worker, so a creation in flight is counted as a
+result-to-be (`InCre`, the list `P` in `BInv.budget`); its success turns it into the placeholder of the test proper
+(`main_start_b`), its failure into the one result filed at the root (`pre_fail_b`).  With `max_tries ≤ 1` the rerun rule
+(b) never fires; with `max_tries ≥ 2` the bound is false for object roots (Props/C03 `root_creation_hidden`).
+
 Technique as in `TravResults.lean` / `TravReady.lean`: a reflexive-transitive frame relation `Fr` for the pieces of
 a step that do not start a test of the class, the invariant `BInv` is preserved along it, and one walk through
 `afterTraverse`, `traverseNode`, `iter`, `iterL`, `runLoop`, `resumeTest`, `resume`.
